@@ -297,15 +297,30 @@ def opThreads (op : String) : List Thread :=
 def split2 (op : String) : Bool × String :=
   if op.startsWith "2" then (true, (op.drop 1).toString) else (false, op)
 
+/-- threads of reloader `second`: its own ops, and a requester for every `X` of the OTHER reloader (the
+    request that reloader's creator issues on this one) -/
+def threadsOf (ops : List String) (second : Bool) : List Thread :=
+  ops.flatMap fun o =>
+    let (s2, op) := split2 o
+    if op == "X" then (if s2 != second then [.reqIdle] else [])
+    else if s2 == second then opThreads op else []
+
 def predict (ops : List String) : String := Id.run do
-  let t1 := (ops.filter fun o => !(split2 o).1).flatMap fun o => opThreads (split2 o).2
-  let t2 := (ops.filter fun o => (split2 o).1).flatMap fun o => opThreads (split2 o).2
-  let mut p : PState := ⟨linit t1, linit t2⟩
+  let mut p : PState := ⟨linit (threadsOf ops false), linit (threadsOf ops true)⟩
   let mut i1 := 0
   let mut i2 := 0
+  let mut arm1 : Option Nat := none     -- reloader 1's creator is armed: index of the requester thread in reloader 2
+  let mut arm2 : Option Nat := none
   let mut out : List String := []
   for o in ops do
     let (second, op) := split2 o
+    if op == "X" then
+      -- the requester thread lives in the OTHER reloader's thread list
+      if second then
+        arm2 := some i1; i1 := i1 + 1
+      else
+        arm1 := some i2; i2 := i2 + 1
+      continue
     let l := if second then p.r2 else p.r1
     let i := if second then i2 else i1
     let mut l' := l
@@ -324,6 +339,17 @@ def predict (ops : List String) : String := Id.run do
       p := { p with r2 := l' }; i2 := i2 + n
     else
       p := { p with r1 := l' }; i1 := i1 + n
+    -- the creator ran in this acquire and is armed: its request on the other reloader (the two reloaders are
+    -- independent, `several_reloaders_independent`: where in the acquire the request falls does not matter)
+    if op == "A" && l'.base.creates > l.base.creates then
+      if second then
+        match arm2 with
+        | some j => p := { p with r1 := runToEndL p.r1 j }; arm2 := none
+        | none => pure ()
+      else
+        match arm1 with
+        | some j => p := { p with r2 := runToEndL p.r2 j }; arm1 := none
+        | none => pure ()
   out := out ++ [s!"C={p.r1.base.creates}/O={p.r1.base.onCalls}", s!"C={p.r2.base.creates}/O={p.r2.base.onCalls}"]
   return ",".intercalate out
 
